@@ -143,6 +143,7 @@ static void to_double(struct reb_particle* ps, struct reb_particle_int* psi, uns
 }
 
 static void drift(struct reb_simulation* r, double dt, double scale_pos, double scale_vel){
+    REB_VERIF(r, "j_drift", 2, dt, r->dt);
     struct reb_integrator_janus* ri_janus = &(r->ri_janus);
     const unsigned int N = r->N;
     for(unsigned int i=0; i<N; i++){
@@ -153,6 +154,7 @@ static void drift(struct reb_simulation* r, double dt, double scale_pos, double 
 }
 
 static void kick(struct reb_simulation* r, double dt, double scale_vel){
+    REB_VERIF(r, "j_kick", 2, dt, r->dt);
     struct reb_integrator_janus* ri_janus = &(r->ri_janus);
     const unsigned int N = r->N;
     for(unsigned int i=0; i<N; i++){
@@ -177,6 +179,7 @@ void reb_integrator_janus_part1(struct reb_simulation* r){
     
     if (ri_janus->recalculate_integer_coordinates_this_timestep==1){
         to_int(ri_janus->p_int, r->particles, N, scale_pos, scale_vel); 
+        REB_VERIF(r, "j_toint", 1, (double)N);
         ri_janus->recalculate_integer_coordinates_this_timestep = 0;
     }
 
